@@ -17,6 +17,7 @@ package main
 // harness/go.mod stays untouched.
 
 import (
+	"bytes"
 	"context"
 	"crypto/ecdsa"
 	"crypto/ed25519"
@@ -26,6 +27,7 @@ import (
 	"fmt"
 	"math/rand"
 	"os"
+	"runtime"
 	"runtime/debug"
 	"strconv"
 	"strings"
@@ -974,5 +976,580 @@ func init() {
 		parallel(len(job.Sessions), job.Workers, func(i int) {
 			adSessionExec(job.Sessions[i], em, maxHung)
 		})
+	}
+}
+
+// =====================================================================================================================
+// Fault catalogue at the adapter level (property C11, sub-command `adfault`): KeyGen / Sign of the real adapters called
+// directly while a peer goes silent after its k-th outgoing message, a single message is withheld, a context is
+// cancelled or has already expired, or the stored share data are unusable.  Recorded per party call: when its context
+// ended, when the call returned and with what; afterwards a fresh honest session is run in the same process (probe).
+// Every case runs in a child process (a panic in a goroutine of the code under test kills the child, not the driver).
+// =====================================================================================================================
+
+type afCase struct {
+	Adapter    string `json:"adapter"`
+	IDs        []int  `json:"ids"`
+	Thr        int    `json:"thr"`
+	Phase      string `json:"phase"` // "keygen" | "sign"
+	Fault      string `json:"fault"` // "none" | "vanish" | "withhold" | "cancel" | "expired" | "baddata"
+	P          int    `json:"p"`     // vanish: the peer that goes silent; cancel / expired / baddata: the party concerned (0: every party; cancel, expired)
+	K          int    `json:"k"`     // vanish: number of outgoing messages of P that still go out
+	WS         int    `json:"ws"`    // withhold: sender, type, receiver of the withheld message
+	WU         string `json:"wu"`
+	WR         int    `json:"wr"`
+	AtMs       int    `json:"at_ms"`   // cancel: when P's context is cancelled
+	Variant    string `json:"variant"` // baddata: "empty" | "truncated" | "garbage" | "emptyobj" | "foreign" | "other-party" | "nodata"
+	DeadlineMs int    `json:"deadline_ms"`
+	BoundMs    int    `json:"bound_ms"` // a call has to return this long after its context ended, at the latest
+	HardMs     int    `json:"hard_ms"`  // how long the harness waits after the last context end before it calls a call blocked
+	SharesIn   string `json:"shares_in"`
+	Digest     string `json:"digest"`
+	Probe      bool   `json:"probe"`
+}
+
+type afJob struct {
+	Cases   []afCase `json:"cases"`
+	Base    int      `json:"base"`
+	Workers int      `json:"workers"`
+	Chunk   int      `json:"chunk"`
+}
+
+type afLogger struct{}
+
+func (afLogger) Debugf(string, ...interface{}) {}
+func (afLogger) Warnf(string, ...interface{})  {}
+func (afLogger) Errorf(string, ...interface{}) {}
+
+func afNewParty(ad string, id int) adParty {
+	if ad == "ecdsa" {
+		return ecdsaad.NewParty(uint16(id), afLogger{})
+	}
+	return eddsaad.NewParty(uint16(id), afLogger{})
+}
+
+// afSession: n real parties on an in-process router with the fault filters of one case.
+type afSession struct {
+	ad      string
+	ids     []int
+	parties map[int]adParty
+	q       map[int]chan adDeliv
+	stop    chan struct{}
+	wg      sync.WaitGroup
+	mu      sync.Mutex
+	sent    map[int]int // outgoing messages per party (sendMsg calls)
+	c       *afCase
+	dropped int
+	wdone   bool
+	panics  []string
+}
+
+func afNewSession(ad string, ids []int, c *afCase) *afSession {
+	s := &afSession{ad: ad, ids: ids, parties: map[int]adParty{}, q: map[int]chan adDeliv{}, stop: make(chan struct{}), sent: map[int]int{}, c: c}
+	for _, id := range ids {
+		s.parties[id] = afNewParty(ad, id)
+		s.q[id] = make(chan adDeliv, 8192)
+	}
+	return s
+}
+
+func (s *afSession) notePanic(where string, e interface{}) {
+	st := string(debug.Stack())
+	if len(st) > 1200 {
+		st = st[:1200]
+	}
+	s.mu.Lock()
+	s.panics = append(s.panics, fmt.Sprintf("%s: %v | %s", where, e, st))
+	s.mu.Unlock()
+}
+
+func (s *afSession) start(thr int) {
+	ids16 := make([]uint16, len(s.ids))
+	for i, id := range s.ids {
+		ids16[i] = uint16(id)
+	}
+	for _, id := range s.ids {
+		id := id
+		s.wg.Add(1)
+		go func() {
+			defer s.wg.Done()
+			for {
+				select {
+				case <-s.stop:
+					return
+				case d := <-s.q[id]:
+					func() {
+						defer func() {
+							if e := recover(); e != nil {
+								s.notePanic("OnMsg/ClassifyMsg", e)
+							}
+						}()
+						_, bc, err := s.parties[id].ClassifyMsg(d.data)
+						if err != nil {
+							return
+						}
+						s.parties[id].OnMsg(d.data, uint16(d.from), bc)
+					}()
+				}
+			}
+		}()
+	}
+	for _, id := range s.ids {
+		from := id
+		s.parties[id].Init(ids16, thr, func(msg []byte, isBroadcast bool, to uint16) {
+			data := append([]byte(nil), msg...)
+			url, _ := pbAnyURL(data)
+			su := adShort(url)
+			s.mu.Lock()
+			s.sent[from]++
+			n := s.sent[from]
+			c := s.c
+			silent := c != nil && c.Fault == "vanish" && c.P == from && n > c.K
+			s.mu.Unlock()
+			if silent {
+				s.mu.Lock()
+				s.dropped++
+				s.mu.Unlock()
+				return
+			}
+			for _, r := range s.ids {
+				if r == from || !(isBroadcast || int(to) == r) {
+					continue
+				}
+				if c != nil && c.Fault == "withhold" && c.WS == from && c.WR == r && c.WU == su {
+					s.mu.Lock()
+					first := !s.wdone
+					s.wdone = true
+					if first {
+						s.dropped++
+					}
+					s.mu.Unlock()
+					if first {
+						continue
+					}
+				}
+				s.q[r] <- adDeliv{from: from, data: data}
+			}
+		})
+	}
+}
+
+func (s *afSession) close() {
+	close(s.stop)
+	s.wg.Wait()
+}
+
+var afShareCache = map[string]map[int][]byte{}
+
+// afShares: share data for a signing case: a stored key (ECDSA) or an honest key generation in this process (EdDSA).
+func afShares(ad string, ids []int, thr int, path string) (map[int][]byte, error) {
+	key := fmt.Sprintf("%s|%v|%d|%s", ad, ids, thr, path)
+	if sh, ok := afShareCache[key]; ok {
+		return sh, nil
+	}
+	shares := map[int][]byte{}
+	if path != "" {
+		b, err := os.ReadFile(path)
+		if err != nil {
+			return nil, err
+		}
+		m := map[string]string{}
+		if err := json.Unmarshal(b, &m); err != nil {
+			return nil, err
+		}
+		for k, v := range m {
+			id, _ := strconv.Atoi(k)
+			shares[id] = []byte(v)
+		}
+	} else {
+		for attempt := 0; attempt < 3 && len(shares) < len(ids); attempt++ {
+			s := afNewSession(ad, ids, nil)
+			s.start(thr)
+			ctx, cancel := context.WithTimeout(context.Background(), 20*time.Second)
+			var mu sync.Mutex
+			var wg sync.WaitGroup
+			got := map[int][]byte{}
+			for _, id := range ids {
+				id := id
+				wg.Add(1)
+				go func() {
+					defer wg.Done()
+					out, err := s.parties[id].KeyGen(ctx)
+					if err == nil {
+						mu.Lock()
+						got[id] = out
+						mu.Unlock()
+					}
+				}()
+			}
+			wg.Wait()
+			cancel()
+			s.close()
+			if len(got) == len(ids) {
+				shares = got
+			}
+		}
+		if len(shares) < len(ids) {
+			return nil, fmt.Errorf("honest key generation for the set-up did not complete")
+		}
+	}
+	afShareCache[key] = shares
+	return shares, nil
+}
+
+type afRet struct {
+	p     int
+	at    int64
+	out   []byte
+	err   error
+	panic string
+}
+
+func afExec(t int, c afCase) []obj {
+	var lines []obj
+	log := func(o obj) {
+		o["t"] = t
+		lines = append(lines, o)
+	}
+	log(obj{"e": "reset", "fk": c.Fault, "ad": c.Adapter, "ph": c.Phase, "ids": c.IDs, "thr": c.Thr, "fp": c.P, "k": c.K, "ws": c.WS, "wu": c.WU, "wr": c.WR,
+		"at": c.AtMs, "var": c.Variant, "dl": c.DeadlineMs, "bound": c.BoundMs, "probe": c.Probe})
+	fail := func(why string) []obj {
+		log(obj{"e": "setupfail", "why": why})
+		log(obj{"e": "end", "g0": 0, "g1": 0, "dropped": 0})
+		return lines
+	}
+	digest := adHex(c.Digest)
+	var shares map[int][]byte
+	if c.Phase == "sign" {
+		var err error
+		shares, err = afShares(c.Adapter, c.IDs, c.Thr, c.SharesIn)
+		if err != nil {
+			return fail(err.Error())
+		}
+	}
+	g0 := runtime.NumGoroutine()
+	s := afNewSession(c.Adapter, c.IDs, &c)
+	// stored share data (the unusable variants for party P)
+	if c.Phase == "sign" {
+		for _, id := range c.IDs {
+			data := shares[id]
+			skip := false
+			if c.Fault == "baddata" && id == c.P {
+				switch c.Variant {
+				case "empty":
+					data = []byte{}
+				case "truncated":
+					data = data[:len(data)*2/3]
+				case "garbage":
+					data = []byte("\x00\xff not json at all")
+				case "emptyobj":
+					data = []byte("{}")
+				case "null":
+					data = []byte("null")
+				case "other-party":
+					for _, o := range c.IDs {
+						if o != id {
+							data = shares[o]
+							break
+						}
+					}
+				case "foreign":
+					// share data of a DIFFERENT committee (same adapter): an honest key generation of another id set
+					other := []int{}
+					for _, o := range c.IDs {
+						x := o ^ 8 // another identifier, still a valid 16-bit one
+						if x == 0 {
+							x = 9
+						}
+						other = append(other, x)
+					}
+					if c.Adapter == "ecdsa" {
+						// no second ECDSA key available without safe primes: the stored document with the key identifiers of another
+						// committee (numbers kept verbatim: json.Number)
+						var doc map[string]interface{}
+						dec := json.NewDecoder(bytes.NewReader(data))
+						dec.UseNumber()
+						if dec.Decode(&doc) == nil {
+							ks := []json.Number{}
+							for _, o := range other {
+								ks = append(ks, json.Number(strconv.Itoa(o)))
+							}
+							doc["Ks"] = ks
+							if b, err := json.Marshal(doc); err == nil {
+								data = b
+							}
+						}
+					} else {
+						fs, err := afShares(c.Adapter, other, c.Thr, "")
+						if err != nil {
+							return fail(err.Error())
+						}
+						data = fs[other[0]]
+					}
+				case "nodata":
+					skip = true
+				}
+			}
+			if skip {
+				log(obj{"e": "setdata", "p": id, "called": false, "err": false, "panic": ""})
+				continue
+			}
+			var err error
+			pan := ""
+			func() {
+				defer func() {
+					if e := recover(); e != nil {
+						pan = fmt.Sprint(e)
+					}
+				}()
+				err = s.parties[id].SetShareData(data)
+			}()
+			log(obj{"e": "setdata", "p": id, "called": true, "err": err != nil, "panic": pan})
+		}
+	}
+	s.start(c.Thr)
+	t0 := time.Now()
+	ms := func() int64 { return time.Since(t0).Milliseconds() }
+	rets := make(chan afRet, len(c.IDs))
+	ctxEnd := map[int]int64{}
+	var cancels []context.CancelFunc
+	for _, id := range c.IDs {
+		id := id
+		var ctx context.Context
+		var cancel context.CancelFunc
+		switch {
+		case c.Fault == "expired" && (c.P == 0 || c.P == id):
+			ctx, cancel = context.WithDeadline(context.Background(), time.Now().Add(-time.Second))
+			ctxEnd[id] = 0
+			log(obj{"e": "ctxend", "p": id, "at": 0, "why": "expired"})
+		case c.Fault == "cancel" && (c.P == id || c.P == 0):
+			ctx, cancel = context.WithCancel(context.Background())
+			at := int64(c.AtMs)
+			ctxEnd[id] = at
+			cf := cancel
+			time.AfterFunc(time.Duration(c.AtMs)*time.Millisecond, cf)
+			log(obj{"e": "ctxend", "p": id, "at": at, "why": "cancel"})
+		default:
+			ctx, cancel = context.WithTimeout(context.Background(), time.Duration(c.DeadlineMs)*time.Millisecond)
+			ctxEnd[id] = int64(c.DeadlineMs)
+			log(obj{"e": "ctxend", "p": id, "at": c.DeadlineMs, "why": "deadline"})
+		}
+		cancels = append(cancels, cancel)
+		go func() {
+			r := afRet{p: id}
+			func() {
+				defer func() {
+					if e := recover(); e != nil {
+						st := string(debug.Stack())
+						if len(st) > 1200 {
+							st = st[:1200]
+						}
+						r.panic = fmt.Sprintf("%v | %s", e, st)
+					}
+				}()
+				if c.Phase == "keygen" {
+					r.out, r.err = s.parties[id].KeyGen(ctx)
+				} else {
+					r.out, r.err = s.parties[id].Sign(ctx, digest)
+				}
+			}()
+			r.at = ms()
+			rets <- r
+		}()
+	}
+	last := int64(0)
+	for _, e := range ctxEnd {
+		if e > last {
+			last = e
+		}
+	}
+	hard := time.NewTimer(time.Duration(last+int64(c.HardMs)) * time.Millisecond)
+	got := map[int]afRet{}
+wait:
+	for len(got) < len(c.IDs) {
+		select {
+		case r := <-rets:
+			got[r.p] = r
+		case <-hard.C:
+			break wait
+		}
+	}
+	hard.Stop()
+	for _, cf := range cancels {
+		cf()
+	}
+	// outcomes
+	okOut := map[int][]byte{}
+	for _, id := range c.IDs {
+		r, ok := got[id]
+		if !ok {
+			log(obj{"e": "noret", "p": id, "waited": ms()})
+			continue
+		}
+		if r.panic != "" {
+			log(obj{"e": "panic", "p": id, "where": c.Phase, "what": r.panic})
+			continue
+		}
+		et := ""
+		if r.err != nil {
+			et = r.err.Error()
+			if len(et) > 160 {
+				et = et[:160]
+			}
+		} else {
+			okOut[id] = r.out
+		}
+		log(obj{"e": "ret", "p": id, "at": r.at, "err": r.err != nil, "txt": et, "good": false})
+	}
+	// was a result that came without an error a real result?
+	good := map[int]bool{}
+	if c.Phase == "keygen" {
+		pks := map[string]int{}
+		pkOf := map[int]string{}
+		for id, out := range okOut {
+			func() {
+				defer func() { recover() }()
+				p := afNewParty(c.Adapter, id)
+				if p.SetShareData(out) != nil {
+					return
+				}
+				pk, err := p.ThresholdPK()
+				if err == nil && len(pk) > 0 {
+					pkOf[id] = hex.EncodeToString(pk)
+					pks[pkOf[id]]++
+				}
+			}()
+		}
+		for id := range okOut {
+			good[id] = pkOf[id] != "" && len(pks) == 1
+		}
+	} else {
+		for id, sig := range okOut {
+			func() {
+				defer func() { recover() }()
+				ref := afNewParty(c.Adapter, id)
+				if ref.SetShareData(shares[id]) != nil {
+					return
+				}
+				pk, err := ref.ThresholdPK()
+				if err == nil {
+					good[id] = adVerify(c.Adapter, pk, digest, sig)
+				}
+			}()
+		}
+	}
+	for i := range lines {
+		if lines[i]["e"] == "ret" {
+			if id, ok := lines[i]["p"].(int); ok && good[id] {
+				lines[i]["good"] = true
+			}
+		}
+	}
+	s.mu.Lock()
+	for _, p := range s.panics {
+		log(obj{"e": "panic", "p": 0, "where": "router", "what": p})
+	}
+	dropped := s.dropped
+	s.mu.Unlock()
+	s.close()
+	// goroutines of the dead session should be gone after a short grace
+	g1 := runtime.NumGoroutine()
+	for i := 0; i < 20 && g1 > g0 && len(got) == len(c.IDs); i++ {
+		time.Sleep(25 * time.Millisecond)
+		g1 = runtime.NumGoroutine()
+	}
+	// probe: a fresh honest session in the same process
+	if c.Probe {
+		ok := false
+		took := int64(0)
+		func() {
+			defer func() {
+				if e := recover(); e != nil {
+					log(obj{"e": "panic", "p": 0, "where": "probe", "what": fmt.Sprint(e)})
+				}
+			}()
+			p0 := time.Now()
+			if c.Adapter == "eddsa" {
+				ps := afNewSession("eddsa", []int{1, 2}, nil)
+				ps.start(1)
+				ctx, cancel := context.WithTimeout(context.Background(), 20*time.Second)
+				var wg sync.WaitGroup
+				var n int32
+				for _, id := range []int{1, 2} {
+					id := id
+					wg.Add(1)
+					go func() {
+						defer wg.Done()
+						defer func() { recover() }()
+						if _, err := ps.parties[id].KeyGen(ctx); err == nil {
+							atomic.AddInt32(&n, 1)
+						}
+					}()
+				}
+				wg.Wait()
+				cancel()
+				ps.close()
+				ok = n == 2
+			} else {
+				sh, err := afShares("ecdsa", c.IDs, c.Thr, c.SharesIn)
+				if err == nil {
+					ps := afNewSession("ecdsa", c.IDs, nil)
+					for _, id := range c.IDs {
+						if ps.parties[id].SetShareData(sh[id]) != nil {
+							return
+						}
+					}
+					ps.start(c.Thr)
+					ctx, cancel := context.WithTimeout(context.Background(), 60*time.Second)
+					var wg sync.WaitGroup
+					var n int32
+					pd := []byte("probe digest probe digest 012345")
+					for _, id := range c.IDs {
+						id := id
+						wg.Add(1)
+						go func() {
+							defer wg.Done()
+							defer func() { recover() }()
+							if _, err := ps.parties[id].Sign(ctx, pd); err == nil {
+								atomic.AddInt32(&n, 1)
+							}
+						}()
+					}
+					wg.Wait()
+					cancel()
+					ps.close()
+					ok = int(n) == len(c.IDs)
+				}
+			}
+			took = time.Since(p0).Milliseconds()
+		}()
+		log(obj{"e": "probe", "ok": ok, "took": took})
+	}
+	log(obj{"e": "end", "g0": g0, "g1": g1, "dropped": dropped})
+	return lines
+}
+
+func init() {
+	commands["adfault-child"] = func() {
+		var job afJob
+		readJob(&job)
+		em := newEmitter()
+		for i, c := range job.Cases {
+			em.lines(afExec(job.Base+i, c))
+			em.flush()
+		}
+	}
+	commands["adfault"] = func() {
+		var job afJob
+		readJob(&job)
+		em := newEmitter()
+		defer em.flush()
+		chunk := job.Chunk
+		if chunk <= 0 {
+			chunk = 4
+		}
+		runInChildren("adfault-child", len(job.Cases), job.Workers, chunk, func(lo, hi int) interface{} {
+			return afJob{Cases: job.Cases[lo:hi], Base: lo}
+		}, em)
 	}
 }
